@@ -128,6 +128,14 @@ def fea(draw):
                 body = ["# a comment"] + body
             out.append("feature %s {\n    %s\n} %s;" % (bname, "\n    ".join(body), bname))
             meta[bname] = {"marker": m, "pos": pos if m is not None else None, "body": body}
+            if m is not None and pos != "nested" and draw(st.integers(0, 5)) == 0:
+                # the same tag split over two top-level blocks, only one of which carries the marker: the feature is still generated (at the marker)
+                other = "feature %s {\n    %s\n} %s;" % (bname, rule[1], bname)
+                if draw(st.booleans()):
+                    out.append(other)
+                else:
+                    out.insert(len(out) - 1, other)
+                meta[bname]["split"] = other
     return {"text": "\n".join(out) + "\n", "blocks": meta}
 
 
@@ -318,6 +326,23 @@ def run_case(case, ctx):
             nb = len([x for x in body[:mi] if not x.startswith("#")])
             na = len([x for x in body[mi + 1:] if not x.startswith("#")])
             upos = sorted(j for x, j in positions if x[0] and x[0][0] == ("FeatureBlock", tag))
+            if b.get("split"):
+                # the tag is split over two top-level blocks and only one carries the marker: as much is generated as without the marker-less block
+                ctx.label("tag-split-over-two-blocks")
+                if len(upos) != nb + na + 1:
+                    raise Violation("user statements of a feature with a marker are missing from the output", feature=tag, found=len(upos), expected=nb + na + 1)
+                if mode in ("default", "lib", "ellipsis"):
+                    spec2 = base_spec()
+                    spec2["features"] = text.replace(b["split"] + "\n", "", 1)
+                    if mode == "lib":
+                        spec2["lib"]["com.github.googlei18n.ufo2ft.featureWriters"] = spec["lib"]["com.github.googlei18n.ufo2ft.featureWriters"]
+                    s2 = io.StringIO()
+                    with guard("compile with writers, marker-less twin block removed"):
+                        ufo2ft.compileTTF(S.build(spec2, module), useProductionNames=False, debugFeatureFile=s2, **({"featureWriters": [KernFeatureWriter(quantization=1), ...]} if mode == "ellipsis" else {}))
+                    n2 = len([y for y in leaves(s2.getvalue(), gl | {"a.alt"}) if y[0] and y[0][0] == ("FeatureBlock", tag) and y[1] != "Comment"]) - (nb + na)
+                    if len(generated) != n2:
+                        raise Violation("a second, marker-less block of the same tag changed what is generated at the marker", feature=tag, generated_statements=len(generated), without_the_second_block=n2, writers=mode)
+                continue
             if len(upos) != nb + na:
                 raise Violation("user statements of a feature with a marker are missing from the output", feature=tag, found=len(upos), expected=nb + na)
             before, after = upos[:nb], upos[nb:]
@@ -342,7 +367,7 @@ def run_case(case, ctx):
                                         statements_before=len(before_u), statements_after=len(after_u), writers=mode)
                     ctx.label("marker-only-block-position-checked")
     # 4b. abvm and blwm are generated independently of each other: writing one by hand leaves the other as it is generated without the hand-written block
-    sibling = {"abvm": "blwm", "blwm": "abvm"}
+    sibling = {"abvm": "blwm", "blwm": "abvm", "kern": "dist", "dist": "kern"}  # (kern / dist likewise: one writer, two features)
     todo_tags = [sibling[t_] for t_ in case["blocks"] if t_ in sibling and sibling[t_] not in case["blocks"]]
     if mode == "default" and todo_tags and not (set(case["blocks"]) - {"abvm", "blwm", "kern", "dist", "curs"}):
         keep = [ln for ln in re.split(r"(?<=;)\n(?=feature |table |lookup |markClass |@|languagesystem )", text)]
